@@ -814,9 +814,10 @@ class Dataset(AutoSerialize):
         ]
         array_axis_first = bool(advanced) and advanced[-1] - advanced[0] + 1 != len(advanced)
 
-        # Expand Ellipsis
-        if Ellipsis in index:
-            ellipsis_pos = index.index(Ellipsis)
+        # Expand Ellipsis (found by identity: `Ellipsis in index` compares with ==, which is
+        # element-wise -- and ambiguous -- for an integer-array item such as ds[:, np.array([0, 2])])
+        ellipsis_pos = next((i for i, idx in enumerate(index) if idx is Ellipsis), None)
+        if ellipsis_pos is not None:
             num_missing = self.ndim - (len(index) - 1)
             index = index[:ellipsis_pos] + (slice(None),) * num_missing + index[ellipsis_pos + 1 :]
 
